@@ -3311,17 +3311,13 @@ impl PeerConnection {
         } else {
             let transport = self.inner.sctp_transport.lock().clone();
             if let Some(transport) = transport {
-                let dc_clone = dc.clone();
-                let h = crate::spawn_rtc(
-                    self.inner.config.runtime_handle.as_ref(),
-                    self.inner.pc_span.clone(),
-                    async move {
-                        if let Err(e) = transport.send_dcep_open(&dc_clone).await {
-                            debug!("Failed to send DCEP OPEN: {}", e);
-                        }
-                    },
-                );
-                self.inner.track_task(h);
+                // Queued before this call returns: a message the application sends on
+                // the new channel right away must not get in front of the OPEN - the
+                // peer drops DATA for a stream it has not been told about, while
+                // acknowledging it.
+                if let Err(e) = transport.queue_dcep_open(&dc) {
+                    debug!("Failed to send DCEP OPEN: {}", e);
+                }
             }
         }
 
